@@ -130,6 +130,16 @@ def check_node(rep, node, tier, idx):
                     rep.violation(f"dict-vs-positional/{node.cls}", f"{node.label}: encode(dict) = {enc[:40].hex()} but encode(positional) = {pos!r:.100}",
                                   {"type_index": idx, "tier": tier, "value_index": vi, "clause": "dictpos"})
                     outcome = "dict-vs-positional"
+                # a dict is looked up by member name: the order in which its keys were inserted must not matter
+                for how, dv in (("reversed", dict(reversed(list(v.items())))), ("rotated", dict(list(v.items())[1:] + list(v.items())[:1]))):
+                    if len(v) < 2:
+                        break
+                    alt = _try(node.encode, dv)
+                    calls += 1
+                    if alt[0] != "ok" or bytes(alt[1]) != enc:
+                        rep.violation(f"dict-key-order/{node.cls}", f"{node.label}: encode of the same dict with keys inserted in {how} order = {alt!r:.100}, in declaration order {enc[:40].hex()}",
+                                      {"type_index": idx, "tier": tier, "value_index": vi, "clause": "dictpos"})
+                        outcome = "dict-key-order"
             if not sampled:
                 rep.sample({"type": node.label, "value": repr(v)[:80], "encoded": enc[:32].hex()})
                 sampled = True
